@@ -24,16 +24,27 @@ RULE = ("instances of the seven classes with <= 16 formulation variables: number
         "chains (N 1..9, chain length 2..4, pbc both ways), graphs as edge sets with repeated / reversed / self-loop edges "
         "over int / str / tuple / mixed labels, integer programs (1..3 rows, 1..5 columns, feasible by construction or not), "
         "weighted edge dicts and sets (isolated vertices through self loops), set systems with optional weights and "
-        "user M, job lists / dicts with 1..3 workers, log_trick both ways; weights default, strictly above the documented "
-        "threshold, and free; a case is non-trivial when it has >= 3 formulation variables and the matrix has >= 3 "
-        "terms; distinct = distinct case JSON")
+        "user M, job lists / dicts with 1..3 workers, log_trick both ways; duplicated / empty / all-of-U sets, zero-length and "
+        "equal-length jobs, odd vertex counts, isolated vertices; weights default, strictly above the documented threshold "
+        "(ordinary, sub-unit, large-ratio, and a hair above), exactly at it (weak sentence), below it and free; "
+        "large-magnitude exact integers (10**9 .. 10**15: number lists with part sums differing by 1 or 2 and with a "
+        "perfect partition, job lengths, BILP rows) and SetCover weights differing by 2**-30 / 2**-40; the known-finding families "
+        "gp-weighted (edge weights > 1) and gp-bidir (an edge in both directions) at the default A and a hair above the "
+        "documented threshold; a case is non-trivial "
+        "when it has >= 3 formulation variables and the matrix has >= 3 terms; distinct = distinct case JSON")
 ASSUMPTIONS = ["coefficients are ints / Fractions / dyadic floats (BILP: numpy int64 / float64 on small values) so that the "
                "implementation's arithmetic is exact; weights of BILP and GraphPartitioning are dyadic rationals because their "
                "conversions divide numpy / Python ints by 2 (floats), all other classes also get non-dyadic Fractions (1/5, 1/20, 3/100 …)",
                "Python set iteration orders the code itself depends on (GraphPartitioning._vertices, SetCover._U, the "
                "variable set of _solve_bruteforce, the edge sets) are read from the real objects and passed to the model as data",
-               "ground-state sentences for SetCover, JobSequencing and GraphPartitioning are checked by this enumeration "
-               "(a test), not proved"]
+               "the ground-state sentences of all seven classes are Lean theorems about the model (Props/C10.lean); the "
+               "enumeration oracle here re-checks them on the real code on every generated instance (a test of the tie, and of "
+               "the thresholds' domain: GraphPartitioning on simple graphs with weights in (0, 1] — outside it only through the "
+               "families gp-weighted / gp-bidir, whose failures are the known findings C10:gp-weighted-threshold / "
+               "C10:gp-bidir-threshold —, SetCover / "
+               "JobSequencing only when a user M fits, SetCover only on set systems over U)",
+               "large-magnitude JobSequencing instances compare and enumerate to_qubo only: to_quso = qubo_to_quso(to_qubo) "
+               "divides Python ints by 2 and 4 (floats, inexact above 2**53)"]
 
 # Two defects this check demonstrated are repaired upstream and stay here as permanent regressions (signatures kept):
 #  * 9a5d806  Problem.solve_bruteforce dropped the variables whose coefficients vanish from the matrix (DESIGN.md §10 D7);
@@ -71,7 +82,11 @@ def rs(rng, lo, hi, frac=False):
     return str(rng.randint(lo, hi))
 
 def weights_mode(rng):
-    return rng.choice(["default", "default", "above", "above", "above", "free"])
+    """default: the documented defaults; above: strictly above the documented threshold (three regimes); just: a hair
+    above it; at: exactly the threshold (only the weak sentence is claimed: ground energy = optimal cost, some ground
+    state feasible-optimal — SetCover, JobSequencing, GraphPartitioning); below: under it (nothing claimed;
+    correspondence only); free: anything"""
+    return rng.choice(["default", "default", "above", "above", "above", "free", "just", "at", "below"])
 
 def gen_np(rng, big=False):
     n = rng.randint(1, 9 if big else 6)
@@ -86,6 +101,7 @@ def gen_np(rng, big=False):
         S.append(v)
     wm = weights_mode(rng)
     A = None if wm == "default" else rng.choice([rs(rng, 1, 4, True), "1/5", "1/20", "3/100", "1000"]) if wm == "above" \
+        else rng.choice(["1/1000000", "1/1024"]) if wm == "just" else "0" if wm == "at" else "-1/2" if wm == "below" \
         else rng.choice(["0", "-1", "2", "1/2"])
     if A is not None and wm == "above" and Fraction(A) <= 0:
         A = "3"
@@ -127,6 +143,12 @@ def ab_weights(rng, wm, thr_of_B, dyadic=False):
     numpy int64 data, whose `/ 2` in qubo_to_quso is a float: both are exact on dyadic values only)"""
     if wm == "default":
         return None, None
+    if wm in ("just", "at", "below"):
+        B = Fraction(rng.choice([1, 1, 2, 3]), rng.choice([1, 1, 2, 4, 16] if dyadic else [1, 1, 2, 5, 10]))
+        thr = thr_of_B(B)
+        eps = Fraction(1, rng.choice([64, 1024] if dyadic else [100, 1000, 10 ** 6]))
+        A = thr + eps if wm == "just" else thr if wm == "at" else rng.choice([thr - eps, thr / 2, thr - B / 4])
+        return str(A), str(B)
     if wm == "above":
         r = rng.random()
         if r < 0.4:         # sub-unit
@@ -182,7 +204,7 @@ def gen_gp(rng, big=False):
     base = gen_graph(rng, 8 if big else 6, 9 if big else 6)
     simple = rng.random() < 0.6
     if simple:      # simple graph on an even number of vertices, isolated vertices through self loops
-        n = rng.choice([2, 4, 4, 6, 6, 8] if big else [2, 4, 4, 6])
+        n = rng.choice([2, 4, 4, 6, 6, 8, 3, 5, 7] if big else [2, 4, 4, 6, 3, 5])   # odd: no balanced partition exists
         und = set()
         for _ in range(rng.randint(1, 2 * n)):
             u, v = rng.sample(range(n), 2)
@@ -233,9 +255,18 @@ def gen_sc(rng, big=False):
             missing = set(U) - {a for v in V for a in v}
             if missing:
                 V[rng.randrange(N)] = sorted(set(V[0]) | missing) if N == 1 else sorted(missing)
-        if rng.random() < 0.05:
-            V.append([])
+        r = rng.random()
+        if r < 0.08:                    # an empty set (never useful, its variable must stay 0 in every optimum when B > 0)
+            V.insert(rng.randrange(N + 1), [])
             N += 1
+        elif r < 0.2:                   # the same set twice: ties between optimal covers
+            V.insert(rng.randrange(N + 1), list(rng.choice(V)))
+            N += 1
+        elif r < 0.26:                  # one set is all of U: the optimum is a single set (several when weights tie)
+            V[rng.randrange(N)] = list(U)
+        elif r < 0.32:                  # outside the domain (a set with an element that is not in U): `covered == U`
+            i = rng.randrange(N)        # rejects every choice containing it; correspondence only (Spec.indomain)
+            V[i] = sorted(set(V[i]) | {n})
         log = rng.random() < 0.5
         cnt = max(sum(1 for v in V if a in v) for a in U)
         if cnt == 0:
@@ -261,11 +292,20 @@ def gen_js(rng, big=False):
         m = rng.randint(1, 3)
         N = rng.randint(1, 3)
         lengths = [rng.randint(1, 3) for _ in range(N)]
+        r = rng.random()
+        if r < 0.15 and N >= 2:         # a zero-length job (must still be assigned exactly once)
+            lengths[rng.randrange(N)] = 0
+        elif r < 0.3:                   # equal lengths: ties between optimal schedules
+            lengths = [lengths[0]] * N
+        if max(lengths) == 0:
+            lengths[0] = 1
         log = rng.random() < 0.5
         M = None
         if rng.random() < 0.15:
             M = sum(lengths) + rng.randint(0, 1)
         Me = M or N * max(lengths)
+        if Me == 0:
+            continue
         nb = m * N + (m - 1) * ((int(math.log2(Me)) + 1) if log else Me)
         if nb <= (16 if big else 12):
             break
@@ -318,6 +358,90 @@ def gen_js_wide(rng, big=False):
     return dict(cls="JS", lengths=lengths, **{"as": rng.choice(["list", "tuple", "dict"])}, m=m, log=log, M=M,
                 style=rng.choice(Labels.STYLES), num="frac", A=A, B=B, wmode=wm)
 
+def gen_big(rng, big=False):
+    """large-magnitude exact integers (10**9 … 10**15) where validity / cost is arithmetic on user data: number lists with
+    nearly equal part sums (difference 1 or 2) and with a genuine perfect partition, job lengths, and SetCover weights
+    that differ by 2**-30 / 2**-40.  Python ints / Fractions only; energies of these instances are enumerated with Python
+    integers (`etype`).  A tolerant comparison (isclose / allclose) of two sums accepts an unequal split here."""
+    k = rng.choice([9, 10, 12, 15])
+    b = 10 ** k
+    r = rng.random()
+    wm = rng.choice(["default", "above", "just"])
+    if r < 0.6:
+        d1, d2 = rng.randint(1, 4), rng.randint(1, 4)
+        S = rng.choice([
+            [b, b + 1, 1],                      # perfect partition {b + 1} | {b, 1}; {b} | {b + 1, 1} is off by 2
+            [b, b + 1],                         # no perfect partition: difference 1
+            [2 * b, b, b - 1, 1],               # perfect: {2b} | {b, b - 1, 1}
+            [b + d1, b + d2, d1, d2],           # perfect: {b + d1, d2} | {b + d2, d1}
+            [b + d1, b, d1 + 1],                # off by one: {b + d1} | {b, d1 + 1}
+            [b, b, b + 1, b + 1, 2],            # perfect needs 2 b + 2 = 2 b + 2 … {b, b, 2} | {b + 1, b + 1}
+            [3 * b + 1, b, b, b],               # difference 1
+        ])
+        if rng.random() < 0.5:
+            S = list(S); rng.shuffle(S)
+        A = None if wm == "default" else rng.choice(["3", "1/7", "1/1000000"])
+        return dict(cls="NP", S=[str(v) for v in S], container=rng.choice(["list", "tuple"]), num="int", A=A, B=None,
+                    wmode=wm, big=True)
+    if r < 0.85:
+        m = rng.choice([1, 1, 2])
+        lengths = rng.choice([[b, b + 1, 1], [b, b + 1], [b + 1, b, b], [2 * b, b, b - 1, 1] if m == 1 else [b, 1]])
+        A, B = (None, None) if wm == "default" else (str(max(lengths) + rng.choice([1, 7])), "1") if wm == "above" \
+            else (str(Fraction(max(lengths)) + Fraction(1, 1000)), "1")
+        return dict(cls="JS", lengths=lengths, **{"as": rng.choice(["list", "tuple", "dict"])}, m=m, log=True, M=None,
+                    style=rng.choice(Labels.STYLES), num="frac", A=A, B=B, wmode=wm, big=True)
+    eps = Fraction(1, 2 ** rng.choice([30, 40]))     # dyadic: SetCover.to_quso mixes ints and Fractions into floats
+    U = [0, 1]
+    V = [[0], [1], [0, 1]]
+    w = rng.choice([[Fraction(1, 2), Fraction(1, 2) - eps, 1],          # {V0, V1} beats V2 by eps
+                    [Fraction(1, 2), Fraction(1, 2), 1],                # tie between V2 and {V0, V1}
+                    [Fraction(1, 2) + eps, Fraction(1, 2), 1]])         # V2 beats {V0, V1} by eps
+    A, B = (None, None) if wm == "default" else ("3/2", "1") if wm == "above" else (str(1 + eps), "1")
+    return dict(cls="SC", U=U, V=V, weights=[str(x) for x in w], log=rng.random() < 0.5, M=None,
+                style=rng.choice(Labels.STYLES), num="frac", A=A, B=B, wmode=wm, big=True)
+
+def gen_gp_family(rng, fam):
+    """GraphPartitioning outside the domain on which its documented threshold is valid (the two KNOWN FINDINGS):
+    `gp-weighted` — simple graph, even N, positive edge weights with at least one > 1 (dict input: ints, 5/2, 3/2);
+    `gp-bidir` — edge set with some edges given in both directions (unit weights).  Default A and A a hair above the
+    documented threshold B*min(2*maxdegree, N)/8 (count-based degree, as the code computes it).  Same correspondence and
+    same direct oracle as every other instance; a ground-state failure is reported under the family's own signature."""
+    n = rng.choice([2, 2, 4, 4, 6])
+    und = set()
+    for _ in range(rng.randint(1, 2 * n)):
+        u, v = rng.sample(range(n), 2)
+        und.add((min(u, v), max(u, v)))
+    und = sorted(und)
+    if fam == "gp-weighted":
+        ws = [rng.choice(["1", "2", "3", "10", "5/2", "3/2"]) for _ in und]
+        if all(Fraction(w) <= 1 for w in ws):
+            ws[rng.randrange(len(ws))] = rng.choice(["10", "3", "5/2"])
+        edges = [[u, v, w] if rng.random() < 0.5 else [v, u, w] for (u, v), w in zip(und, ws)]
+        as_ = "dict"
+    else:
+        edges = [[u, v, "1"] for u, v in und]
+        back = [[v, u, "1"] for u, v in und if rng.random() < 0.7]
+        if not back:
+            back = [[und[0][1], und[0][0], "1"]]
+        edges += back
+        as_ = "set"
+    edges += [[q, q, "1"] for q in range(n) if not any(q in e[:2] for e in edges)]
+    rng.shuffle(edges)
+    deg = {}
+    for e in edges:
+        for q in e[:2]:
+            deg[q] = deg.get(q, 0) + 1
+    thr = Fraction(min(2 * max(deg.values()), n), 8)
+    if rng.random() < 0.5:
+        A, B, wm = None, None, "default"
+    else:
+        B = Fraction(rng.choice([1, 1, 2, 1]), rng.choice([1, 1, 2]))
+        A, B, wm = str(B * thr + Fraction(1, rng.choice([64, 1024]))), str(B), "just"
+    return dict(cls="GP", edges=edges, **{"as": as_}, style=rng.choice(Labels.STYLES), num="frac", A=A, B=B, wmode=wm,
+                family=fam)
+
+GP_FAMILY_SIG = {"gp-weighted": "C10:gp-weighted-threshold", "gp-bidir": "C10:gp-bidir-threshold"}
+
 TARGETED = dict(SC=gen_sc_star, JS=gen_js_wide)
 
 GEN = dict(NP=gen_np, ASC=gen_asc, VC=gen_vc, BILP=gen_bilp, GP=gen_gp, SC=gen_sc, JS=gen_js)
@@ -353,6 +477,43 @@ FIXED = [
          wmode="default"),
     dict(cls="GP", edges=[[0, 1, "1"], [1, 2, "1"], [2, 3, "1"], [3, 0, "1"], [4, 4, "1"], [5, 5, "1"]],
          **{"as": "set"}, style="mixed", num="int", A="9/8", B="1", wmode="above"),
+    # large magnitudes: part sums 10**10 and 10**10 + 2 (a relative difference of 2e-10), a perfect partition exists
+    dict(cls="NP", S=[str(10 ** 10), str(10 ** 10 + 1), "1"], container="list", num="int", A=None, B=None,
+         wmode="default", big=True),
+    dict(cls="NP", S=[str(10 ** 15), str(10 ** 15 + 1)], container="tuple", num="int", A="1/7", B=None,
+         wmode="above", big=True),
+    dict(cls="NP", S=[str(2 * 10 ** 12), str(10 ** 12), str(10 ** 12 - 1), "1"], container="list", num="int", A=None,
+         B=None, wmode="default", big=True),
+    dict(cls="JS", lengths=[10 ** 12, 10 ** 12 + 1, 1], **{"as": "list"}, m=1, log=True, M=None, style="int", num="int",
+         A=None, B=None, wmode="default", big=True),
+    dict(cls="JS", lengths=[10 ** 9, 10 ** 9 + 1], **{"as": "dict"}, m=2, log=True, M=None, style="str", num="int",
+         A=str(10 ** 9 + 2), B="1", wmode="above", big=True),
+    dict(cls="SC", U=[0, 1], V=[[0], [1], [0, 1]], weights=["1/2", "549755813887/1099511627776", "1"], log=False,
+         M=None, style="int", num="frac", A="3/2", B="1", wmode="above", big=True),
+    # the two known findings of GraphPartitioning, minimal and larger instances (families gp-weighted / gp-bidir)
+    dict(cls="GP", edges=[[0, 1, "10"]], **{"as": "dict"}, style="int", num="int", A=None, B=None, wmode="default",
+         family="gp-weighted"),
+    dict(cls="GP", edges=[[0, 1, "10"]], **{"as": "dict"}, style="int", num="int", A="1", B="1", wmode="above",
+         family="gp-weighted"),
+    dict(cls="GP", edges=[[0, 1, "3"], [1, 2, "1"], [2, 3, "1"], [0, 3, "1"]], **{"as": "dict"}, style="str", num="int",
+         A=None, B=None, wmode="default", family="gp-weighted"),
+    dict(cls="GP", edges=[[0, 1, "5/2"], [1, 2, "5/2"], [2, 3, "1"], [3, 0, "5/2"]], **{"as": "dict"}, style="int",
+         num="frac", A="33/64", B="1", wmode="just", family="gp-weighted"),
+    dict(cls="GP", edges=[[0, 1, "1"], [1, 0, "1"]], **{"as": "set"}, style="int", num="int", A=None, B=None,
+         wmode="default", family="gp-bidir"),
+    dict(cls="GP", edges=[[0, 1, "1"], [1, 0, "1"]], **{"as": "set"}, style="str", num="frac", A="5/16", B="1",
+         wmode="above", family="gp-bidir"),
+    dict(cls="GP", edges=[[0, 1, "1"], [0, 2, "1"], [1, 0, "1"], [1, 2, "1"], [2, 0, "1"], [3, 3, "1"]], **{"as": "set"},
+         style="int", num="int", A=None, B=None, wmode="default", family="gp-bidir"),
+    # thresholds exactly met (weak sentence), and a zero-length job / a duplicated set / an odd vertex count
+    dict(cls="SC", U=[0, 1, 2], V=[[0, 1], [2], [1, 2], [2]], weights=None, log=True, M=None, style="int", num="int",
+         A="1", B="1", wmode="at"),
+    dict(cls="JS", lengths=[2, 0, 1], **{"as": "list"}, m=2, log=False, M=None, style="int", num="int", A="2", B="1",
+         wmode="at"),
+    dict(cls="GP", edges=[[0, 1, "1"], [1, 2, "1"], [2, 3, "1"], [3, 0, "1"]], **{"as": "set"}, style="int", num="int",
+         A="1/2", B="1", wmode="at"),
+    dict(cls="GP", edges=[[0, 1, "1"], [1, 2, "1"], [2, 0, "1"]], **{"as": "set"}, style="str", num="int", A="2", B="1",
+         wmode="above"),
 ]
 
 # ------------------------------------------------------------------ building the real object
@@ -574,15 +735,22 @@ def bits(n):
         _BITS[n] = np.stack([(a >> (n - 1 - i)) & 1 for i in range(n)], axis=1) if n else np.zeros((1, 0), dtype=np.int64)
     return _BITS[n]
 
+def etype(terms):
+    """int64 when every partial sum provably fits, else Python integers (dtype=object: exact, slower) — the
+    large-magnitude instances (10**9 … 10**15, squared by the formulations) need the latter"""
+    tot = sum(abs(v) for _, v in terms)
+    return np.int64 if tot < (1 << 62) else object
+
 def energies(Q, n, spin):
     """exact energies of a QUBO / QUSO dict on all 2^n assignments of labels 0..n-1 (row a = bits of a, big-endian);
-    spin: bit 0 -> +1, bit 1 -> -1.  Returns (int64 array, denominator)."""
+    spin: bit 0 -> +1, bit 1 -> -1.  Returns (integer array, denominator)."""
     terms, den = int_terms(Q)
-    X = bits(n)
+    dt = etype(terms)
+    X = bits(n).astype(dt)
     Z = 1 - 2 * X if spin else X
-    E = np.zeros(X.shape[0], dtype=np.int64)
+    E = np.zeros(X.shape[0], dtype=dt)
     for k, v in terms:
-        col = np.full(X.shape[0], v, dtype=np.int64)
+        col = np.full(X.shape[0], v, dtype=dt)
         for i in k:
             col = col * Z[:, i]
         E += col
@@ -592,11 +760,12 @@ def energies_on(terms, labs, spin):
     """exact (integer) energies of the given terms on all assignments of the labels `labs` (first label = most
     significant bit)"""
     pos = {l: i for i, l in enumerate(labs)}
-    X = bits(len(labs))
+    dt = etype(terms)
+    X = bits(len(labs)).astype(dt)
     Z = 1 - 2 * X if spin else X
-    E = np.zeros(X.shape[0], dtype=np.int64)
+    E = np.zeros(X.shape[0], dtype=dt)
     for k, v in terms:
-        col = np.full(X.shape[0], v, dtype=np.int64)
+        col = np.full(X.shape[0], v, dtype=dt)
         for i in k:
             col = col * Z[:, pos[i]]
         E += col
@@ -659,6 +828,7 @@ class Spec:
             self.edges = [(u, v, Fraction(w) if case["as"] == "dict" else Fraction(1)) for u, v, w in case["edges"] if u != v]
         elif t == "SC":
             self.U = set(case["U"]); self.V = [set(v) for v in case["V"]]
+            self.indomain = all(v <= self.U for v in self.V)      # a set system over U
             self.w = [Fraction(1)] * len(self.V) if case["weights"] is None else [Fraction(s) for s in case["weights"]]
             self.ndec = len(self.V)
         elif t == "JS":
@@ -761,6 +931,8 @@ class Spec:
         if self.A is None or self.B <= 0:
             return False
         if t in ("VC", "SC"):
+            if t == "SC" and not self.indomain:
+                return False
             if t == "SC" and self.case["M"] is not None:
                 cnt = max(sum(1 for v in self.V if a in v) for a in self.U)
                 if self.case["M"] < cnt:
@@ -773,14 +945,42 @@ class Spec:
                 return False
             return self.A > self.B * max(self.len)
         if t == "GP":
-            if not self.simple_unit():
-                return False        # the documented threshold is for simple graphs with unit (here: at most unit) weights
+            if not self.simple_unit() and not self.case.get("family"):
+                return False        # proved domain: simple graphs with weights in (0, 1]; outside it only the two
+                                    # known-finding families are held to the documented threshold
             deg = {}
             for u, v, _ in self.case["edges"]:
                 for q in (u, v):
                     deg[q] = deg.get(q, 0) + 1
             md = max(deg.values()) if deg else 0
             return self.A > self.B * Fraction(min(2 * md, len(self.verts)), 8)
+
+def threshold_at(sp):
+    """the weight equals the documented threshold exactly (SetCover A = B, JobSequencing A = B max length,
+    GraphPartitioning A = B min(2 maxdeg, N)/8 on simple graphs with weights in (0, 1]): the weak sentence — ground energy
+    = optimal cost, some ground state decodes to a feasible optimal solution — is a theorem (sc_optimal_is_ground,
+    js_optimal_is_ground, gp_optimal_is_ground) and is checked like the default-weight sentence"""
+    t = sp.case["cls"]
+    if sp.A is None or sp.B <= 0 or t not in ("SC", "JS", "GP"):
+        return False
+    if t == "SC":
+        if not sp.indomain:
+            return False
+        if sp.case["M"] is not None and sp.case["M"] < max(sum(1 for v in sp.V if a in v) for a in sp.U):
+            return False
+        return sp.A == sp.B
+    if t == "JS":
+        if sp.case["M"] is not None and sp.case["M"] < sum(sp.len):
+            return False
+        return sp.A == sp.B * max(sp.len)
+    if not sp.simple_unit():
+        return False
+    deg = {}
+    for u, v, _ in sp.case["edges"]:
+        for q in (u, v):
+            deg[q] = deg.get(q, 0) + 1
+    md = max(deg.values()) if deg else 0
+    return sp.A == sp.B * Fraction(min(2 * md, len(sp.verts)), 8)
 
 def default_weights_claimed(case):
     return case["cls"] in ("SC", "VC", "NP", "GP", "JS") and case.get("A") is None and case.get("B") is None and \
@@ -858,9 +1058,12 @@ def oracle(ctx, case, prob, L, sols, impl):
     has_cost = t != "ASC"
     opt = min(sp.cost(x) for x in feas) if (feas and has_cost) else None
     above = sp.threshold_ok()
-    default = default_weights_claimed(case) and (t != "GP" or sp.simple_unit())
+    default = (default_weights_claimed(case) and (t != "GP" or sp.simple_unit() or case.get("family"))
+               and (t != "SC" or sp.indomain)) or threshold_at(sp)
     if feas and (above or default):
         for name, M, spin in (("to_qubo", Q, False), ("to_quso", Ls, True)):
+            if spin and inexact_quso(case):
+                continue
             if wide:
                 r = separable_min(M, sp.ndec, sp.groups(n), spin)
                 if r is None:
@@ -984,7 +1187,7 @@ def oracle(ctx, case, prob, L, sols, impl):
 def tolerance_cases(ctx):
     from qubovert.problems import BILP
     out = []
-    for b in (100000, 250000):
+    for b in (100000, 250000, 10 ** 9, 10 ** 12, 10 ** 15):
         p = BILP([1], [[b + 1]], [b])
         v = bool(p.is_solution_valid([1]))
         ctx.count("tolerance:%s" % ("accepts" if v else "rejects"))
@@ -993,9 +1196,42 @@ def tolerance_cases(ctx):
         if v:
             out.append((c, "BILP([1], [[%d]], [%d]).is_solution_valid([1]) is True although S x = %d != b = %d "
                            "(np.allclose with rtol 1e-5)" % (b + 1, b, b + 1, b)))
+    # several rows / columns of large integers: exact integer oracle (Python ints), feasible and off-by-one points
+    for b in (10 ** 9, 10 ** 12, 10 ** 15):
+        S = [[b, 1, 0], [1, b + 1, 1]]
+        for x, rhs in (([1, 1, 0], [b + 1, b + 2]), ([1, 1, 0], [b + 1, b + 3]), ([1, 0, 1], [b, 3]), ([1, 0, 1], [b, 2])):
+            want = all(sum(a * v for a, v in zip(row, x)) == r for row, r in zip(S, rhs))
+            got = bool(BILP([1, 1, 1], S, rhs).is_solution_valid(x))
+            ctx.count("tolerance:rows:%s" % ("feasible" if want else "infeasible"))
+            c = dict(cls="tolerance", c=[1, 1, 1], S=S, b=rhs, x=x)
+            ctx.case(c, False)
+            if got != want:
+                out.append((c, "BILP([1,1,1], %r, %r).is_solution_valid(%r) is %r but S x == b is %r" % (S, rhs, x, got, want)))
     return out
 
 # ------------------------------------------------------------------ driver of the check
+
+def inexact_quso(case):
+    """large-magnitude JobSequencing / SetCover instances: `to_quso` is `qubo_to_quso(to_qubo())`, whose `/ 2` and `/ 4`
+    turn Python ints into floats — inexact above 2**53 by construction (ASSUMPTIONS: exact arithmetic only), so only
+    `to_qubo` (exact integers) is compared and enumerated there.  NumberPartitioning builds `to_quso` directly (exact)."""
+    return bool(case.get("big")) and case["cls"] == "JS"
+
+def documented_nvars(c):
+    """number of formulation variables by the documented layout, from the case alone (guards the model side against a
+    register the implementation no longer allocates: the driver would build it)"""
+    try:
+        if c["cls"] == "JS":
+            N, m = len(c["lengths"]), c["m"]
+            M = c["M"] if c["M"] is not None else N * max(c["lengths"])
+            return m * N + max(m - 1, 0) * ((int(math.log2(M)) + 1) if c["log"] else M)
+        if c["cls"] == "SC":
+            N, n = len(c["V"]), len(c["U"])
+            M = c["M"] if c["M"] is not None else max(sum(1 for v in c["V"] if a in v) for a in c["U"])
+            return N + n * ((int(math.log2(M)) + 2) if c["log"] else M)
+    except (ValueError, TypeError):
+        pass
+    return 0
 
 def nontrivial(case, impl):
     return impl["nvars"] >= 3 and isinstance(impl["qubo"], list) and len(impl["qubo"]) >= 3
@@ -1010,7 +1246,7 @@ def process(ctx, cases, dense=False):
             prepared.append((c, None, None, [], False, dict(init_err=exc_name(e))))
             continue
         n = int(prob.num_binary_variables)
-        if n > (64 if c["cls"] in ("SC", "JS") else 16):
+        if max(n, documented_nvars(c)) > (64 if c["cls"] in ("SC", "JS") else 16):
             ctx.count("skipped:too-big"); continue
         import random
         srng = random.Random(json.dumps(c, sort_keys=True))
@@ -1049,6 +1285,8 @@ def process(ctx, cases, dense=False):
             ctx.diff(t + ":init", c, "constructed", m); continue
         extra = model_extra_checks(c, prob, L, m)
         for key in ("nvars", "qubo", "quso", "conv", "valid", "brute", "brute_all"):
+            if key == "quso" and inexact_quso(c):
+                ctx.count("quso-not-compared:float-division-of-large-ints"); continue
             if impl[key] != m.get(key):
                 iv, mv = impl[key], m.get(key)
                 if key in ("conv", "valid") and isinstance(iv, list) and isinstance(mv, list) and len(iv) == len(mv):
@@ -1058,7 +1296,18 @@ def process(ctx, cases, dense=False):
                 break
         if extra:
             ctx.diff(t + ":instance", c, extra, None)
-        for sig, why in oracle(ctx, c, prob, L, sols, impl):
+        found = oracle(ctx, c, prob, L, sols, impl)
+        fam = c.get("family")
+        if fam in GP_FAMILY_SIG:
+            # the documented threshold fails on this family (known finding): ground-state failures — and the
+            # solve_bruteforce failure that is their consequence (it solves that QUBO) — carry the family's signature;
+            # anything else (convert / valid / nbv / a brute failure without a ground failure) keeps its own
+            ground = any(sig.startswith("C10:GP:ground-") for sig, _ in found)
+            found = [(GP_FAMILY_SIG[fam], "%s instance %s, A=%s B=%s: %s" % (fam, json.dumps(c["edges"]), c.get("A"), c.get("B"), why))
+                     if sig.startswith("C10:GP:ground-") or (ground and sig == "C10:GP:solve-bruteforce") else (sig, why)
+                     for sig, why in found]
+            ctx.count("%s:%s" % (fam, "fails" if ground else "holds"))
+        for sig, why in found:
             ctx.violation(sig, c, why)
 
 def init_line(c):
@@ -1086,8 +1335,11 @@ def malformed(rng):
     if r < 0.5:
         return dict(cls="ASC", n=rng.choice([0, 3]), len=rng.choice([1, 3]), min=rng.choice(["-1", "1"]), max="2",
                     pbc=False, num="int", A=None, B=None, wmode="free")
-    if r < 0.75:
+    if r < 0.65:
         return dict(cls="BILP", c=["1", "2"], S=[["1", "0", "1"]], b=["1"], num="int", A=None, B=None, wmode="free")
+    if r < 0.8:     # JobSequencing: only zero-length jobs (M = 0: log2 domain error) / no job at all (max of nothing)
+        return dict(cls="JS", lengths=rng.choice([[0], [0, 0], []]), **{"as": "list"}, m=rng.randint(1, 2), log=rng.random() < 0.5,
+                    M=None, style="int", num="int", A=None, B=None, wmode="free")
     return dict(cls="SC", U=[0, 1], V=[[0], [1]], weights=rng.choice([["1/2", "1/2"], ["1"], ["1", "1/2"]]), log=True,
                 M=None, style="int", num="frac", A=None, B=None, wmode="free")
 
@@ -1100,6 +1352,9 @@ def gen_all(ctx):
         cases += [GEN[t](rng, big=True) for _ in range(max(4, per // 12))]
         if t in TARGETED:
             cases += [TARGETED[t](rng, big=(i % 3 == 0)) for i in range(max(12, per // 5))]
+    cases += [gen_big(rng) for _ in range(ctx.scale(24, 240))]
+    for fam in ("gp-weighted", "gp-bidir"):
+        cases += [gen_gp_family(rng, fam) for _ in range(ctx.scale(12, 120))]
     cases += [malformed(rng) for _ in range(ctx.scale(30, 200))]
     return cases
 
@@ -1131,8 +1386,10 @@ def search(ctx):
             if c["cls"] == "NP":
                 B = None
             v = dict(c, A=A, B=B, wmode=wm)
+            if A is not None and c["cls"] in ("SC", "JS", "VC", "NP") and c.get("num") == "int":
+                v["num"] = "frac"   # all coefficients Fractions: an int / 2 in qubo_to_quso would be a float
             extra.append(v)
-            if "log" in c:
+            if "log" in c and not c.get("big"):
                 extra.append(dict(v, log=not c["log"]))
             if "pbc" in c:
                 extra.append(dict(v, pbc=not c["pbc"]))
